@@ -203,7 +203,7 @@ func flipRegion(cu *c09unit, off int) string {
 
 func runC09(c *mon.Ctx) {
 	// (in) exhaustive bit flips
-	nu := c.Pick(216, 3000)
+	nu := c.Pick(216, 20000)
 	for i := int64(0); i < nu; i++ {
 		if !c.Mine("flips", i) {
 			continue
@@ -247,7 +247,7 @@ func runC09(c *mon.Ctx) {
 		}
 	}
 	// (in) other corruptions
-	nr := c.Pick(20000, 500000)
+	nr := c.Pick(20000, 3000000)
 	for i := int64(0); i < nr; i++ {
 		if !c.Mine("corrupt", i) {
 			continue
@@ -307,7 +307,7 @@ func runC09(c *mon.Ctx) {
 		c.Case(mon.HashBytes("c09c", pl), true)
 	}
 	// (out) muxer sections
-	no := c.Pick(1200, 12000)
+	no := c.Pick(1200, 100000)
 	for i := int64(0); i < no; i++ {
 		if !c.Mine("out", i) {
 			continue
